@@ -77,7 +77,7 @@ theorem kind_prefix_and_length (r : Row) (hr : r ∈ table) (v : List Nat) (hl :
     ∃ s, base58Encode cks v r.human = .ok s ∧ s.length = r.encLen ∧ r.human <+: s := by
   refine ⟨encOf cks r v, ?_, ?_⟩
   · rw [base58Encode_eq, encodeWith_row table cks table_rows_encode_distinct r hr v hl]
-  · have := encOf_shape table cks hck table_rows_ok r hr v hl hv
+  · have := encOf_shape cks hck r (table_rows_ok r hr) v hl hv
     exact ⟨this.1, this.2.1⟩
 
 include hck in
@@ -88,7 +88,7 @@ theorem decode_encode (r : Row) (hr : r ∈ table) (v : List Nat) (hl : v.length
   have : s = encOf cks r v := by injection hs with h; exact h.symm
   subst this
   rw [base58Decode_eq]
-  exact decodeWith_enc table cks hck table_rows_ok table_rows_disjoint true true r hr v hl hv
+  exact decodeWith_enc table cks hck table_rows_disjoint true true r hr (table_rows_ok r hr) v hl hv
 
 include hck in
 /-- `base58_decode` accepts nothing but canonical encodings: whenever it returns `v`, there is a kind of the
